@@ -10,7 +10,7 @@ from harness.core import cbool, clist, copt, cz, czlist
 
 ID = "C05"
 MODEL_TARGETS = ["C05/Cases.vo"]
-PROOF_TARGETS = ["C05/Gen.vo", "C05/Bridge.vo", "C05/Proofs.vo"]
+PROOF_TARGETS = ["C05/Gen.vo", "C05/Bridge.vo", "C05/Proofs.vo", "C05/HistProofs.vo"]
 OBLIGATION_FILES = ["C05/Bridge.v"]
 PROPS_FILE = "C05/Props.v"
 SHARD = 60
@@ -66,7 +66,7 @@ STRATS = ["direct", "recursive", "multioutput", "dirrec"]
 
 
 def _rand_fh(rng, hi=6):
-    k = rng.choice([1, 1, 2, 2, 3, 3, 4])
+    k = min(hi, rng.choice([1, 1, 2, 2, 3, 3, 4]))
     if rng.random() < 0.35:           # contiguous from 1
         return list(range(1, k + 1))
     return sorted(rng.sample(range(1, hi + 1), k))
@@ -122,9 +122,212 @@ def gen_cases(rng, tier):
     for est in ("tab", "ts", "both", "neither"):
         for st in ("direct", "recursive"):
             cases.append({"kind": "infer", "estimator": est, "strategy": st})
+    nh = 240 if tier == "quick" else 3000
+    for i in range(nh):
+        cases.append(_hist_case(rng, SCENARIOS[i % len(SCENARIOS)] if i < nh * 2 // 3 else None,
+                                STRATS[(i // len(SCENARIOS)) % 4] if i < nh * 2 // 3 else None))
     if tier == "thorough":
         cases += exhaustive_cases()
     return cases
+
+
+# ------------------------------------------------------------------------------------------------
+# call histories: fit, then update / predict / update_predict_single / update_predict, so that the
+# cutoff is NOT always the last remembered observation
+
+
+def _cutoffs_of(cv, k):
+    """positions of the cutoffs a window splitter yields on k points (-1: empty first window)"""
+    sp = cv["wl"] if cv["sww"] else 0
+    return list(range(sp - 1, k - cv["fh"][-1], cv["step"]))
+
+
+def _gen_cv(rng, fh, k, wl_f, default=False):
+    fm = fh[-1]
+    if default:
+        return None if k >= wl_f + fm else False
+    if k < 1 + fm:
+        return False
+    cvwl = rng.randint(1, min(4, k - fm))
+    kind = rng.choice(["sliding", "sliding", "expanding"])
+    step = rng.choice([1, 1, 2, 3])
+    if kind == "sliding":
+        step = min(step, cvwl)          # a larger step would leave gaps in the remembered data
+    return {"kind": kind, "fh": list(fh), "wl": cvwl, "step": step, "sww": rng.random() < 0.6}
+
+
+SCENARIOS = ["up_predict", "up_twice", "up_up", "ups", "older", "refit", "defaultcv", "mix", "nan",
+             "older_x"]
+
+
+def _hist_case(rng, scenario=None, st=None):
+    scenario = scenario or rng.choice(SCENARIOS)
+    st = st or rng.choice(STRATS)
+    wl = rng.choice([1, 2, 2, 3, 3, 4])
+    fh = _rand_fh(rng, hi=4)
+    fm_fit = 1 if st == "recursive" else fh[-1]
+    nx = 0
+    if scenario == "older_x":
+        if st == "dirrec":
+            st = rng.choice(["direct", "recursive", "multioutput"])
+            fm_fit = 1 if st == "recursive" else fh[-1]
+        nx = rng.choice([1, 1, 2])
+    n0 = wl + fm_fit - 1 + rng.choice([1, 2, 3, 4, 6])
+    LO = 4
+    span = n0 + 40
+    band = range(1, 4 * span)
+    yv = rng.sample(band, span + LO)                       # truth of y at relative time j: yv[j + LO]
+    yr = [500 + a for a in rng.sample(band, span + LO)]    # revised values
+    xv = [[1000 * (v + 1) + a for a in rng.sample(band, span + LO)] for v in range(nx)]
+    xr = [[1000 * (v + 1) + 500 + a for a in rng.sample(band, span + LO)] for v in range(nx)]
+    off = rng.choice([0, 0, 7, 100])
+    state = {"lo": 0, "hi": n0 - 1, "cut": n0 - 1, "fh": list(fh), "xf": 0}
+    ops = []
+
+    def vals(s, k, revised=False):
+        src = yr if revised else yv
+        return [src[j + LO] for j in range(s, s + k)]
+
+    def xvals(s, k, revised=False):
+        src = xr if revised else xv
+        return [[c[j + LO] for j in range(s, s + k)] for c in src]
+
+    def add_update(s, k, up=False, revised=False, kind="update", fhp=None):
+        o = {"op": kind, "t": off + s, "y": vals(s, k, revised), "up": up}
+        if kind == "update":
+            o["xs"] = xvals(s, k, revised) if nx else None
+        else:
+            o["fh"] = fhp
+        ops.append(o)
+        state["lo"] = min(state["lo"], s)
+        state["hi"] = max(state["hi"], s + k - 1)
+        state["cut"] = state["hi"] if up else s + k - 1
+
+    def new_block(kmin=1, kmax=6):
+        return state["hi"] + 1, rng.randint(kmin, max(kmin, kmax))
+
+    def older_block(predictable=True):
+        """a block that ends before the remembered end (and touches the remembered data)"""
+        lo, hi = state["lo"], state["hi"]
+        for _ in range(50):
+            s = rng.randint(max(lo - 2, -LO), hi - 1)
+            e = rng.randint(max(s, lo - 1), hi - 1)
+            ok = e - wl + 1 >= min(lo, s)
+            if ok == predictable:
+                return s, e - s + 1
+        return None
+
+    def pfh():
+        if st == "recursive" and rng.random() < 0.4:
+            state["fh"] = _rand_fh(rng, hi=4)
+            return list(state["fh"])
+        return rng.choice([None, None, list(state["fh"])])
+
+    def add_predict():
+        f = pfh()
+        m = (f or state["fh"])[-1]
+        xf = []
+        if nx and st == "recursive":
+            xf = [[5000 + 1000 * v + state["xf"] + a for a in range(m)] for v in range(nx)]
+            state["xf"] += m
+        ops.append({"op": "predict", "fh": f, "xfut": xf})
+
+    def add_updpred(s, k, cv, up=False):
+        ops.append({"op": "updpred", "t": off + s, "y": vals(s, k), "cv": cv, "up": up})
+        c = cv or {"fh": state["fh"], "wl": wl, "step": 1, "sww": False}
+        cuts = _cutoffs_of(c, k)
+        if cuts and cuts[-1] >= 0:
+            state["hi"] = max(state["hi"], s + cuts[-1])
+
+    def cvfh():
+        return list(state["fh"]) if st != "recursive" or rng.random() < 0.5 else _rand_fh(rng, hi=3)
+
+    def fresh_updpred(up=False, default=False, overlap=False):
+        f = list(state["fh"]) if default else cvfh()
+        fm = f[-1]
+        kmin = (wl if default else 1) + fm
+        if overlap and state["hi"] - (state["lo"] + wl) >= 1:
+            s = rng.randint(state["lo"] + wl, state["hi"])
+        else:
+            s = state["hi"] + 1
+        k = rng.randint(kmin + 1, kmin + 6)
+        cv = _gen_cv(rng, f, k, wl, default)
+        add_updpred(s, k, cv, up)
+        return s, k, cv
+
+    if scenario == "up_predict":
+        fresh_updpred()
+        add_predict()
+    elif scenario == "up_twice":
+        s, k, cv = fresh_updpred()
+        add_updpred(s, k, cv, False)
+        if rng.random() < 0.5:
+            add_predict()
+    elif scenario == "up_up":
+        fresh_updpred()
+        fresh_updpred(overlap=rng.random() < 0.6)
+        if rng.random() < 0.5:
+            add_predict()
+    elif scenario == "ups":
+        if rng.random() < 0.5:
+            s, k = new_block()
+            add_update(s, k, kind="ups", fhp=pfh())
+            add_predict()
+        else:
+            s, k = new_block(2, 6)
+            add_update(s, k)
+            b = older_block()
+            if b:
+                add_update(b[0], b[1], kind="ups", fhp=pfh())
+    elif scenario in ("older", "older_x"):
+        if rng.random() < 0.5:
+            s, k = new_block(1, 4)
+            add_update(s, k)
+        b = older_block()
+        if b:
+            add_update(b[0], b[1], revised=rng.random() < 0.3)
+        add_predict()
+    elif scenario == "refit":
+        r = rng.random()
+        if r < 0.35:
+            s, k = new_block()
+            add_update(s, k, up=True)
+            add_predict()
+        elif r < 0.7:
+            fresh_updpred(up=True)
+            add_predict()
+        else:
+            s, k, cv = fresh_updpred()
+            add_updpred(s, k, cv, True)
+    elif scenario == "defaultcv":
+        fresh_updpred(default=True)
+        add_predict()
+    elif scenario == "nan":
+        b = older_block(predictable=False)
+        if b:
+            add_update(b[0], b[1])
+        add_predict()
+    else:
+        for _ in range(rng.randint(2, 4)):
+            r = rng.random()
+            if r < 0.3:
+                add_predict()
+            elif r < 0.45:
+                s, k = new_block()
+                add_update(s, k, up=rng.random() < 0.25)
+            elif r < 0.6:
+                b = older_block()
+                if b:
+                    add_update(b[0], b[1], revised=rng.random() < 0.3)
+            elif r < 0.7:
+                s, k = new_block()
+                add_update(s, k, kind="ups", fhp=pfh(), up=rng.random() < 0.2)
+            else:
+                fresh_updpred(up=rng.random() < 0.2, overlap=rng.random() < 0.4)
+    return {"kind": "hist", "scenario": scenario, "strategy": st, "scitype": rng.choice(["tab", "ts"]),
+            "explicit": rng.random() < 0.2, "wl": wl, "off": off, "y": vals(0, n0),
+            "xs": xvals(0, n0), "fh": list(fh), "ops": ops}
+
 
 
 def exhaustive_cases():
@@ -265,6 +468,139 @@ def _frame(cols, index):
                         index=index)
 
 
+def _mk_cv(c, fh_default, wl_default):
+    from sktime.forecasting.model_selection import ExpandingWindowSplitter, SlidingWindowSplitter
+    if c is None:      # what update_predict(cv=None) of a window forecaster builds
+        return SlidingWindowSplitter(fh=fh_default, window_length=wl_default, start_with_window=False)
+    if c["kind"] == "sliding":
+        return SlidingWindowSplitter(fh=c["fh"], window_length=c["wl"], step_length=c["step"],
+                                     start_with_window=c["sww"])
+    return ExpandingWindowSplitter(fh=c["fh"], initial_window=c["wl"], step_length=c["step"],
+                                   start_with_window=c["sww"])
+
+
+def _canon_fc(p):
+    """a returned forecast Series -> {"ix": labels, "v": integer values or None when all NaN}"""
+    import numpy as np
+    a = np.asarray(p.to_numpy(), dtype=float)
+    ix = [int(i) for i in p.index]
+    if len(a) and np.all(np.isnan(a)):
+        return {"ix": ix, "v": None}
+    return {"ix": ix, "v": _canon(a)}
+
+
+def _canon_moving(r, fh):
+    """the result of update_predict -> one [column label or None, labels, values] per moving cutoff
+    (DataFrame: one column per cutoff, NaN where a cutoff has no forecast for that label)"""
+    import pandas as pd
+    out = []
+    if isinstance(r, pd.DataFrame):
+        for j in range(r.shape[1]):
+            col = r.iloc[:, j].dropna()
+            pairs = sorted((int(t), v) for t, v in zip(col.index, _canon(col.to_numpy())))
+            out.append([int(r.columns[j]), [t for t, _ in pairs], [v for _, v in pairs]])
+    elif len(fh) == 1:
+        vals = _canon(r.to_numpy())
+        for t, v in zip(r.index, vals):
+            out.append([None, [int(t)], [v]])
+    else:
+        out.append([int(r.name) if r.name is not None else None, [int(t) for t in r.index],
+                    _canon(r.to_numpy())])
+    return out
+
+
+def _run_hist(case):
+    import warnings
+    import numpy as np
+    import pandas as pd
+    from sktime.forecasting.compose import _reduce
+    cls = _doubles()
+    off, n = case["off"], len(case["y"])
+    nx = len(case["xs"])
+
+    def ser(t, vals):
+        return pd.Series(np.array(vals, dtype=float), index=pd.RangeIndex(t, t + len(vals)))
+
+    def frm(t, cols):
+        return _frame(cols, pd.RangeIndex(t, t + len(cols[0]))) if cols else None
+
+    est = cls[case["scitype"]]()
+    sc = "infer"
+    if case.get("explicit"):
+        sc = "tabular-regressor" if case["scitype"] == "tab" else "time-series-regressor"
+    f = _reduce.make_reduction(est, strategy=case["strategy"], window_length=case["wl"], scitype=sc)
+    _CUR[0] = f
+    steps = []
+    mark = [0]
+
+    def events():
+        evs = []
+        for e in _LOG[mark[0]:]:
+            if e["op"] == "fit":
+                evs.append({"op": "fit", "X": _canon(e["X"]), "ndim": int(e["X"].ndim),
+                            "t": _canon(e["y"]), "tdim": int(e["y"].ndim)})
+            else:
+                evs.append({"op": "predict", "k": int(e["k"]), "cut": e["cut"], "X": _canon(e["X"]),
+                            "ndim": int(e["X"].ndim), "ret": _canon(e["ret"])})
+        mark[0] = len(_LOG)
+        return evs
+
+    def snap(ret, extra=None):
+        d = {"ev": events(), "ret": ret, "cut": int(f.cutoff),
+             "mem": [[int(t), v] for t, v in zip(f._y.index, _canon(f._y.to_numpy()))]}
+        d.update(extra or {})
+        steps.append(d)
+
+    try:
+        with warnings.catch_warnings():
+            warnings.simplefilter("ignore")
+            try:
+                f.fit(ser(off, case["y"]), frm(off, case["xs"]), fh=list(case["fh"]))
+            except Exception as e:
+                if type(e).__name__ in ERRS:
+                    return {"err": type(e).__name__, "stage": "fit", "msg": str(e)[:160]}
+                raise
+            snap(None)
+            for o in case["ops"]:
+                extra = {}
+                try:
+                    if o["op"] == "update":
+                        f.update(ser(o["t"], o["y"]), frm(o["t"], o["xs"]) if o["xs"] else None,
+                                 update_params=bool(o["up"]))
+                        ret = None
+                    elif o["op"] == "predict":
+                        Xf = None
+                        if o["xfut"]:
+                            Xf = frm(int(f.cutoff) + 1, o["xfut"])
+                        ret = _canon_fc(f.predict(fh=o["fh"], X=Xf))
+                    elif o["op"] == "ups":
+                        ret = _canon_fc(f.update_predict_single(ser(o["t"], o["y"]), fh=o["fh"],
+                                                                update_params=bool(o["up"])))
+                    else:
+                        y = ser(o["t"], o["y"])
+                        fhd = [int(h) for h in f.fh.to_relative(f.cutoff)] if o["cv"] is None else None
+                        fhcv = o["cv"]["fh"] if o["cv"] is not None else fhd
+                        extra["windows"] = [[int(i) for i in w]
+                                            for w, _ in _mk_cv(o["cv"], fhd, case["wl"]).split(y)]
+                        extra["fhcv"] = list(fhcv)
+                        cv = None if o["cv"] is None else _mk_cv(o["cv"], None, None)
+                        r = f.update_predict(y, cv=cv, update_params=bool(o["up"]))
+                        ret = {"mc": _canon_moving(r, fhcv)}
+                except Exception as e:
+                    if type(e).__name__ in ERRS:
+                        steps.append({"err": type(e).__name__, "msg": str(e)[:160], "ev": [],
+                                      "cut": None, "mem": []})
+                        break
+                    raise
+                snap(ret, extra)
+    except _NonInt as e:
+        return {"nonint": str(e)}
+    finally:
+        _CUR[0] = None
+    return {"steps": steps, "cls": type(f).__name__, "cls_scitype": type(f)._estimator_scitype,
+            "cls_strategy": type(f).strategy}
+
+
 def run_impl(case):
     import numpy as np
     import pandas as pd
@@ -273,6 +609,8 @@ def run_impl(case):
     cls = _doubles()
     k = case["kind"]
     del _LOG[:]
+    if k == "hist":
+        return _run_hist(case)
     if k == "infer":
         est = cls[case["estimator"]]()
         out = {}
@@ -450,8 +788,268 @@ def _expected_reject(case):
     return None
 
 
+# ------------------------------------------------------------------------------------------------
+# oracle for call histories.  The statement checked at EVERY forecast (plain, single-step update and
+# each moving cutoff of update_predict): if the forecast is labelled from cutoff c (its index is
+# c + fh), then the window handed to the regressor(s) is the window_length observations with the
+# time labels c - wl + 1 .. c, as observed so far (by LABEL, the latest value where a label was
+# observed twice), and it holds nothing observed at a label after c.
+
+
+def _expected_fits(st, zs, wl, fh):
+    """per fit call: (rows as per-variable lists, targets, target ndim) on the series zs"""
+    y = zs[0]
+    n = len(y)
+    steps = [1] if st == "recursive" else fh
+    nw = n - wl - steps[-1] + 1
+    if nw <= 0:
+        return None
+    wins = [[z[r:r + wl] for z in zs] for r in range(nw)]
+    if st == "multioutput":
+        return [(wins, [[y[r + wl - 1 + h] for h in fh] for r in range(nw)], 2)]
+    if st == "recursive":
+        return [(wins, [y[r + wl] for r in range(nw)], 1)]
+    if st == "direct":
+        return [(wins, [y[r + wl - 1 + h] for r in range(nw)], 1) for h in fh]
+    return [([[y[r:r + wl] + [y[r + wl - 1 + g] for g in fh[:i]]] for r in range(nw)],
+             [y[r + wl - 1 + fh[i]] for r in range(nw)], 1) for i in range(len(fh))]
+
+
+def _check_fits(evs, st, zs, wl, fh, what):
+    exp = _expected_fits(st, zs, wl, fh)
+    if exp is None:
+        return "accepted-although-no-full-window-fits: %s on %d observations" % (what, len(zs[0]))
+    if len(evs) != len(exp):
+        return "number-of-fitted-regressors: %s made %d fit calls, expected %d" % (what, len(evs), len(exp))
+    nv = 1 if st == "dirrec" else len(zs)
+    for i, (e, (X, t, tdim)) in enumerate(zip(evs, exp)):
+        rows = _rows3(e["X"], e["ndim"], nv, what)
+        if rows is None:
+            return "array-layout: row length not a multiple of the number of variables"
+        if e["tdim"] != tdim:
+            return "array-layout: %s target ndim %d" % (what, e["tdim"])
+        if len(rows) != len(X) or len(e["t"]) != len(t):
+            return "all-full-windows-used-once: %s call %d has %d rows / %d targets, expected %d" % (
+                what, i, len(rows), len(e["t"]), len(X))
+        for r in range(len(X)):
+            if rows[r] != X[r]:
+                return "train-row-not-lag-window: %s call %d row %d got %s expected %s" % (
+                    what, i, r, rows[r], X[r])
+            if e["t"][r] != t[r]:
+                return "target-not-h-steps-after-window: %s call %d row %d got %s expected %s" % (
+                    what, i, r, e["t"][r], t[r])
+    return None
+
+
+def _n_calls(st, fh):
+    return fh[-1] if st == "recursive" else 1 if st == "multioutput" else len(fh)
+
+
+def _check_forecast(st, nd, wl, fh, nv, evs, base, fc, truth, where, xfut, what):
+    """one forecast `fc` = (labels, values or None) with the predict events `evs` made for it"""
+    ix, vals = fc
+    if not ix or len(ix) != len(fh):
+        return "forecast-index: %s has labels %s for steps %s" % (what, ix, fh)
+    c = ix[0] - fh[0]
+    if ix != [c + h for h in fh]:
+        return "forecast-index: %s has labels %s, not cutoff + fh for any cutoff (fh = %s)" % (what, ix, fh)
+    for e in evs:
+        if e["cut"] != c:
+            return ("forecast-index: %s is labelled from cutoff %d but the forecaster's cutoff was %s "
+                    "when the regressor was asked" % (what, c, e["cut"]))
+    labels = list(range(c - wl + 1, c + 1))
+    last = [[truth[v].get(t) for t in labels] for v in range(nv)]
+    avail = all(x is not None for x in last[0])
+    if vals is None:
+        if avail:
+            return ("forecast-not-regressor-output-for-step: %s is NaN although the observations "
+                    "%d..%d are remembered" % (what, labels[0], c))
+        return None if not evs else "number-of-predict-calls: regressor asked for a NaN forecast"
+    if not avail:
+        return ("predict-window-not-ending-at-cutoff: %s was produced although the labels %d..%d "
+                "are not all observed" % (what, labels[0], c))
+    if len(evs) != _n_calls(st, fh):
+        return "number-of-predict-calls: %s used %d calls, expected %d" % (what, len(evs), _n_calls(st, fh))
+    nvv = 1 if st == "dirrec" else nv
+    views = []
+    for i, e in enumerate(evs):
+        if e["ndim"] != nd:
+            return "array-layout: predict input ndim %d" % e["ndim"]
+        v = _rows3(e["X"], nd, nvv, what)
+        if not v or len(v) != 1:
+            return "array-layout: predict input %s" % (e["X"],)
+        views.append(v[0])
+    # observation slots of call i: everything for direct / multioutput; the first wl - i entries of
+    # the recursive window; the first wl entries of the dirrec row
+    for i, view in enumerate(views):
+        nobs = wl if st in ("direct", "multioutput", "dirrec") else max(0, wl - i)
+        for var in view:
+            for x in var[:nobs]:
+                if x in where and where[x][1] > c:
+                    return ("predict-window-contains-future: %s (cutoff %d) call %d was fed %s: the "
+                            "value %s was observed at label %d, after the cutoff" % (
+                                what, c, i, view, x, where[x][1]))
+    if st in ("direct", "multioutput"):
+        for i, view in enumerate(views):
+            if view != last:
+                return ("predict-window-not-ending-at-cutoff: %s (cutoff %d) call %d was fed %s, "
+                        "expected the observations at labels %d..%d = %s" % (
+                            what, c, i, view, labels[0], c, last))
+            if evs[i]["k"] != base + i:
+                return "forecast-not-regressor-output-for-step: call %d used regressor %d, expected %d" % (
+                    i, evs[i]["k"], base + i)
+        got = [e["ret"] for e in evs] if st == "direct" else evs[0]["ret"][0]
+    elif st == "recursive":
+        ext = [last[0] + [e["ret"] for e in evs]] + [
+            c_ + f_ for c_, f_ in zip(last[1:], xfut or [[]] * (nv - 1))]
+        for i, view in enumerate(views):
+            want = [s_[i:i + wl] for s_ in ext]
+            if view != want:
+                cl = "predict-window-not-ending-at-cutoff" if i == 0 or view[0][:max(0, wl - i)] != \
+                    want[0][:max(0, wl - i)] else "recursive-feedback"
+                return ("%s: %s (cutoff %d) step %d was fed %s, expected the window ending at the "
+                        "cutoff extended by the earlier predictions %s" % (cl, what, c, i + 1, view, want))
+            if evs[i]["k"] != base:
+                return "forecast-not-regressor-output-for-step: wrong regressor"
+        got = [evs[h - 1]["ret"] for h in fh]
+    else:
+        for i, view in enumerate(views):
+            want = [last[0] + [p["ret"] for p in evs[:i]]]
+            if view != want:
+                cl = "predict-window-not-ending-at-cutoff" if view[0][:wl] != last[0] else "dirrec-feedback"
+                return ("%s: %s (cutoff %d) step index %d was fed %s, expected the window ending at "
+                        "the cutoff followed by the earlier predictions %s" % (cl, what, c, i, view, want))
+            if evs[i]["k"] != base + i:
+                return "forecast-not-regressor-output-for-step: call %d used regressor %d" % (i, evs[i]["k"])
+        got = [e["ret"] for e in evs]
+    if vals != got:
+        return "forecast-not-regressor-output-for-step: %s is %s, regressor outputs %s" % (what, vals, got)
+    return None
+
+
+def _oracle_hist(case, out):
+    st, sc, wl, fh0 = case["strategy"], case["scitype"], case["wl"], case["fh"]
+    nv = 1 + len(case["xs"])
+    if "nonint" in out:
+        return "row-contains-non-observation: non-integer data reached the regressor: " + out["nonint"]
+    n0 = len(case["y"])
+    fm = 1 if st == "recursive" else fh0[-1]
+    rej = "NotImplementedError" if st == "dirrec" and case["xs"] else \
+        "ValueError" if n0 - wl - fm + 1 <= 0 else None
+    if "err" in out:
+        if rej is None:
+            return "rejected-although-a-full-window-fits: %s at fit (%s)" % (out["err"], out.get("msg"))
+        return None if out["err"] == rej else "unexpected-error: %s, expected %s" % (out["err"], rej)
+    if rej is not None:
+        return "accepted-although-no-full-window-fits: n=%d wl=%d fh=%s strategy=%s" % (n0, wl, fh0, st)
+    want_sc = "tabular-regressor" if sc == "tab" else "time-series-regressor"
+    if out["cls_scitype"] != want_sc or out["cls_strategy"] != st:
+        return "strategy-scitype-dispatch: built %s" % out["cls"]
+    nd = 2 if sc == "tab" else 3
+    truth = [dict() for _ in range(nv)]       # per variable: label -> value observed (latest wins)
+    where = {}                                # value -> (variable, label)
+
+    def learn(v, t0, vals):
+        for i, x in enumerate(vals):
+            truth[v][t0 + i] = x
+            where[x] = (v, t0 + i)
+
+    def memory():
+        ts = sorted(truth[0])
+        return [[truth[v][t] for t in ts if t in truth[v]] for v in range(nv)]
+
+    learn(0, case["off"], case["y"])
+    for v, col in enumerate(case["xs"]):
+        learn(v + 1, case["off"], col)
+    steps = out["steps"]
+    fh_fit = [1] if st == "recursive" else fh0
+    nfit_set = 1 if st in ("recursive", "multioutput") else len(fh0)
+    ev0 = steps[0]["ev"]
+    if any(e["op"] != "fit" for e in ev0):
+        return "fit-after-predict: predict call during fit"
+    f = _check_fits(ev0, st, memory(), wl, fh_fit, "fit")
+    if f:
+        return f
+    state = {"base": 0, "nfit": len(ev0), "fh": list(fh0)}
+
+    def take_refit(evs, what):
+        """a complete refit on everything remembered"""
+        fits = evs[:nfit_set]
+        if len(fits) < nfit_set or any(e["op"] != "fit" for e in fits):
+            return "number-of-fitted-regressors: %s did not refit all regressors" % what, evs
+        f = _check_fits(fits, st, memory(), wl, fh_fit, what)
+        state["base"] = state["nfit"]
+        state["nfit"] += nfit_set
+        return f, evs[nfit_set:]
+
+    for j, (o, stp) in enumerate(zip(case["ops"], steps[1:])):
+        what = "call %d (%s)" % (j + 1, o["op"])
+        if "err" in stp:
+            return "rejected-although-a-full-window-fits: %s raised %s (%s)" % (what, stp["err"], stp["msg"])
+        evs = list(stp["ev"])
+        if o["op"] == "update":
+            learn(0, o["t"], o["y"])
+            for v, col in enumerate(o["xs"] or []):
+                learn(v + 1, o["t"], col)
+            if o["up"]:
+                f, evs = take_refit(evs, what)
+                if f:
+                    return f
+            if evs:
+                return "fit-after-predict: %s: unexpected regressor calls %s" % (what, [e["op"] for e in evs])
+            continue
+        if o["op"] in ("predict", "ups"):
+            if o["op"] == "ups":
+                learn(0, o["t"], o["y"])
+                if o["up"]:
+                    f, evs = take_refit(evs, what)
+                    if f:
+                        return f
+            if o["fh"] is not None:
+                state["fh"] = list(o["fh"])
+            if any(e["op"] != "predict" for e in evs):
+                return "fit-after-predict: %s refitted" % what
+            f = _check_forecast(st, nd, wl, state["fh"], nv, evs, state["base"],
+                                (stp["ret"]["ix"], stp["ret"]["v"]), truth, where,
+                                o.get("xfut") or [], what)
+            if f:
+                return f
+            continue
+        # update_predict: one forecast per window of the splitter, each after its window was observed
+        fhcv = stp["fhcv"]
+        mc = stp["ret"]["mc"]
+        if len(mc) != len(stp["windows"]):
+            return "number-of-predict-calls: %s returned %d forecasts for %d windows" % (
+                what, len(mc), len(stp["windows"]))
+        for w, (col, ix, vals) in zip(stp["windows"], mc):
+            if w:
+                if w != list(range(w[0], w[-1] + 1)):
+                    return None       # not a contiguous window: outside this oracle
+                learn(0, o["t"] + w[0], [o["y"][i] for i in w])
+            if o["up"]:
+                f, evs = take_refit(evs, what)
+                if f:
+                    return f
+            k = 0
+            while k < len(evs) and evs[k]["op"] == "predict" and k < _n_calls(st, fhcv) \
+                    and vals is not None:
+                k += 1
+            if col is not None and ix and col != ix[0] - fhcv[0]:
+                return "forecast-index: %s column %s holds the labels %s (fh = %s)" % (what, col, ix, fhcv)
+            f = _check_forecast(st, nd, wl, fhcv, nv, evs[:k], state["base"], (ix, vals), truth,
+                                where, [], "%s window %s" % (what, w))
+            if f:
+                return f
+            evs = evs[k:]
+        if evs:
+            return "number-of-predict-calls: %s: %d regressor calls left over" % (what, len(evs))
+    return None
+
+
 def oracle(case, out):
     k = case["kind"]
+    if k == "hist":
+        return _oracle_hist(case, out)
     if k == "infer":
         e = case["estimator"]
         want = {"tab": "tabular-regressor", "ts": "time-series-regressor",
@@ -619,6 +1217,14 @@ def oracle(case, out):
 def nontrivial(case, out):
     if case["kind"] == "infer":
         return True
+    if case["kind"] == "hist":
+        # at least one forecast was made while the cutoff was not the last remembered label
+        for stp in (out.get("steps") or [])[1:]:
+            last = stp["mem"][-1][0] if stp.get("mem") else None
+            if any(e["op"] == "predict" and e["cut"] is not None and last is not None
+                   and e["cut"] < last for e in stp.get("ev", [])):
+                return True
+        return False
     if "nonint" in out or "nan_forecast" in out:
         return False
     n, wl, fh = len(case["y"]), case["wl"], case["fh"]
@@ -629,8 +1235,63 @@ def nontrivial(case, out):
     return nw >= 2
 
 
+def _shrink_hist(c):
+    ops = c["ops"]
+    for i in reversed(range(len(ops))):
+        d = dict(c)
+        d["ops"] = ops[:i] + ops[i + 1:]
+        yield d
+    for i, o in enumerate(ops):
+        if o["op"] in ("update", "ups", "updpred") and len(o["y"]) > 1:
+            for cut_front in (False, True):
+                o2 = dict(o)
+                if cut_front:
+                    o2["y"] = o["y"][1:]
+                    o2["t"] = o["t"] + 1
+                    if o.get("xs"):
+                        o2["xs"] = [x[1:] for x in o["xs"]]
+                else:
+                    o2["y"] = o["y"][:-1]
+                    if o.get("xs"):
+                        o2["xs"] = [x[:-1] for x in o["xs"]]
+                d = dict(c)
+                d["ops"] = ops[:i] + [o2] + ops[i + 1:]
+                yield d
+        if o["op"] == "updpred" and o["cv"] and o["cv"]["kind"] != "sliding":
+            o2 = dict(o)
+            o2["cv"] = dict(o["cv"], kind="sliding")
+            d = dict(c)
+            d["ops"] = ops[:i] + [o2] + ops[i + 1:]
+            yield d
+    if len(c["y"]) > 2:
+        d = dict(c)
+        d["y"] = c["y"][1:]
+        d["xs"] = [x[1:] for x in c["xs"]]
+        d["off"] = c["off"] + 1
+        yield d
+    if c.get("off"):
+        # relabel the whole history so that the first observation is at 0
+        k = c["off"]
+        d = dict(c)
+        d["off"] = 0
+        d["ops"] = [dict(o, t=o["t"] - k) if "t" in o else o for o in ops]
+        yield d
+    if c.get("explicit"):
+        d = dict(c)
+        d["explicit"] = False
+        yield d
+    if c["scitype"] != "tab":
+        d = dict(c)
+        d["scitype"] = "tab"
+        yield d
+
+
 def shrink(case):
     if case["kind"] == "infer":
+        return
+    if case["kind"] == "hist":
+        for d in _shrink_hist(case):
+            yield d
         return
     c = dict(case)
     n = len(c["y"])
@@ -693,7 +1354,7 @@ def shrink(case):
 # model side
 
 CASES_HEADER = """From Coq Require Import ZArith List Bool.
-Require Import SkV.Lib.Base SkV.Lib.ZRange SkV.C05.Model SkV.C05.Cases.
+Require Import SkV.Lib.Base SkV.Lib.ZRange SkV.C05.Model SkV.C05.Hist SkV.C05.Cases.
 Import ListNotations.
 Open Scope Z_scope.
 """
@@ -752,10 +1413,84 @@ def _cinputs(case):
     return "%s %s %s %s" % (czlist(case["y"]), _czll(case["xs"]), cz(case["wl"]), czlist(case["fh"]))
 
 
+def _ctser(t0, vals):
+    return "(tblock %s %s)" % (cz(t0), czlist(vals))
+
+
+def _cfh(fh):
+    return "None" if fh is None else "(Some %s)" % czlist(fh)
+
+
+def _ccv(c):
+    if c is None:
+        return "None"
+    return "(Some (mk_cv %s %s %s %s %s))" % (cbool(c["kind"] == "sliding"), czlist(c["fh"]),
+                                               cz(c["wl"]), cz(c["step"]), cbool(c["sww"]))
+
+
+def _cop(o):
+    if o["op"] == "update":
+        xs = "None" if not o["xs"] else "(Some %s)" % clist([_ctser(o["t"], c) for c in o["xs"]])
+        return "HUpdate %s %s %s" % (_ctser(o["t"], o["y"]), xs, cbool(o["up"]))
+    if o["op"] == "predict":
+        return "HPredict %s %s" % (_cfh(o["fh"]), _czll(o.get("xfut") or []))
+    if o["op"] == "ups":
+        return "HUps %s %s %s" % (_ctser(o["t"], o["y"]), _cfh(o["fh"]), cbool(o["up"]))
+    return "HUpdPred %s %s %s" % (_ctser(o["t"], o["y"]), _ccv(o["cv"]), cbool(o["up"]))
+
+
+def _cev(e):
+    if e["op"] == "fit":
+        f = _cfit(e)
+        return None if f is None else "EvFit (%s)" % f
+    X = _cxrows(e["X"], e["ndim"])
+    if X is None or len(e["X"]) != 1 or e["cut"] is None:
+        return None
+    return "EvPred %s %s (%s)" % (cz(e["cut"]), cz(e["k"]), X[1:-1])
+
+
+def _cfc(ix, v):
+    return "(%s, %s)" % (czlist(ix), "None" if v is None else "Some %s" % czlist(v))
+
+
+def _chist_out(out):
+    if "err" in out:
+        return "None"
+    hs = []
+    for stp in out["steps"]:
+        if "err" in stp:
+            hs.append("([], RErr, 0, [])")
+            continue
+        evs = [_cev(e) for e in stp["ev"]]
+        if any(e is None for e in evs):
+            evs = ["EvPred 0 (-1) (RTab [])"]     # a shape the model never produces
+        r = stp["ret"]
+        if r is None:
+            res = "RNone"
+        elif "mc" in r:
+            res = "RMoving %s" % clist([_cfc(ix, v) for _, ix, v in r["mc"]])
+        else:
+            v = r["v"]
+            if v is not None and (not isinstance(v, list) or any(isinstance(x, list) for x in v)):
+                v = []
+            res = "RPred %s" % _cfc(r["ix"], v)
+        mem = clist(["(%s, %s)" % (cz(t), cz(v)) for t, v in stp["mem"]])
+        hs.append("(%s, %s, %s, %s)" % (clist(evs), res, cz(stp["cut"]), mem))
+    return "(Some %s)" % clist(hs)
+
+
+def _chist_inputs(case):
+    return "%s %s %s %s %s %s %s %s" % (
+        _ST[case["strategy"]], _SC[case["scitype"]], cz(case["wl"]), cz(case["off"]),
+        czlist(case["y"]), _czll(case["xs"]), _cfh(case["fh"]), clist([_cop(o) for o in case["ops"]]))
+
+
 def coq_case(case, out):
     k = case["kind"]
     if out is None or "nonint" in out or "nan_forecast" in out:
         return None
+    if k == "hist":
+        return "CHist %s %s" % (_chist_inputs(case), _chist_out(out))
     if k == "infer":
         e = case["estimator"]
         o = {None: "None", "tabular-regressor": "(Some Tabular)",
@@ -777,6 +1512,8 @@ def coq_case(case, out):
 
 def coq_model_term(case):
     k = case["kind"]
+    if k == "hist":
+        return "model_hist %s" % _chist_inputs(case)
     if k == "infer":
         e = case["estimator"]
         return "infer_scitype %s %s" % (cbool(e in ("ts", "both")), cbool(e in ("tab", "both")))
@@ -793,7 +1530,28 @@ def distribution(cases, results):
     d = collections.Counter()
     for c, r in zip(cases, results):
         o = r.get("out") or {}
-        if c["kind"] == "run":
+        if c["kind"] == "hist":
+            d["hist:scenario=%s" % c.get("scenario")] += 1
+            d["hist:%s:%s" % (c["strategy"], c["scitype"])] += 1
+            d["hist:exog=%d" % len(c["xs"])] += 1
+            for op in c["ops"]:
+                d["hist:op=%s%s" % (op["op"], ":refit" if op.get("up") else "")] += 1
+                if op["op"] == "updpred":
+                    d["hist:cv=%s" % ("default" if op["cv"] is None else "%s:sww=%s" % (
+                        op["cv"]["kind"], op["cv"]["sww"]))] += 1
+            npred = nmid = nnan = 0
+            for stp in (o.get("steps") or [])[1:]:
+                last = stp["mem"][-1][0] if stp.get("mem") else None
+                for e in stp.get("ev", []):
+                    if e["op"] == "predict":
+                        npred += 1
+                        nmid += bool(last is not None and e["cut"] is not None and e["cut"] < last)
+                rr = stp.get("ret") or {}
+                nnan += bool("v" in rr and rr["v"] is None)
+            d["hist:predict-calls"] += npred
+            d["hist:predict-calls-with-cutoff-before-remembered-end"] += nmid
+            d["hist:nan-forecasts(window not remembered)"] += nnan
+        elif c["kind"] == "run":
             d["run:%s:%s:%s" % (c["strategy"], c["scitype"], "rejected" if "err" in o else "accepted")] += 1
             d["run:exog=%d" % len(c["xs"])] += 1
             d["run:update=%s" % ("yes" if _news(c)[0] else "no")] += 1
